@@ -19,8 +19,8 @@ import Tickit.Gen.RBWidth
   * Pens and strings are values (reference counts are not modelled here; the real run is under ASan/LSan).
     A NULL pen pointer in a cell is the empty pen: the field is only read in states that assigned it.
   * Pen attribute values are taken inside the range of their bit-fields (no wrap-around here; that is C19).
-  * The text-width part is a self-contained transcription sufficient for the render buffer; it is meant to
-    be replaced by the C07 model (`Model/Utf8`) when that is merged.
+  * The text-width part is a self-contained transcription sufficient for the render buffer; it is proved equal to
+    the C07 model (`Model/Utf8`, `Model/Width`) in `Proof/RBUtf8.lean` (kept here so that rbcopy/rbflush keep their names).
   No Mathlib: this file is linked into the driver executable.
 -/
 namespace Tickit.RB
